@@ -577,7 +577,28 @@ def m_dot(interp, a, b):
         return SArr.from_fn(lambda i, j: _sum([a.elem(i, t) * b.elem(t, j) for t in range(k)]), (a.shape[0], b.shape[1]), np.float64)
     if a.ndim == 2 and b.ndim == 1:
         return SArr.from_fn(lambda i: _sum([a.elem(i, t) * b.elem(t) for t in range(k)]), (a.shape[0],), np.float64)
+    if a.ndim == 1 and b.ndim == 2:
+        return SArr.from_fn(lambda j: _sum([a.elem(t) * b.elem(t, j) for t in range(k)]), (b.shape[1],), np.float64)
+    if a.ndim == 1 and b.ndim == 1:
+        return _sum([a.elem(t) * b.elem(t) for t in range(k)])
     raise Unsupported("np.dot ranks")
+
+
+@model(np.isclose)
+def m_isclose(interp, a, b, rtol=1e-05, atol=1e-08, equal_nan=False):
+    """|a - b| <= atol + rtol * |b| (real regime, finite operands)"""
+    if any(isinstance(x, SArr) for x in (a, b)):
+        raise Unsupported("np.isclose on symbolic arrays")
+    if not contains_sym((a, b)):
+        return _native(np.isclose, a, b, rtol=rtol, atol=atol, equal_nan=equal_nan)
+    ctx().trust("np.isclose: |a-b| <= atol + rtol*|b| (real regime)")
+    from fractions import Fraction
+    Z = core.Z
+    ta, tb = core._r(a), core._r(b)
+    d = Z.If(ta - tb >= 0, ta - tb, tb - ta)
+    ab = Z.If(tb >= 0, tb, -tb)
+    fr = lambda x: Z.RealVal(str(Fraction(float(x))))
+    return SBool(d <= fr(atol) + fr(rtol) * ab)
 
 
 def _sum(xs):
